@@ -905,8 +905,14 @@ func (cr *concRun) checkC04(c *harness.Case) {
 		c.Violatef("C04 revision-resolved-twice", cr.witness(""), "revisions %v were deposited more than once or outside (start, dealt]", firstN(dup, 5))
 	}
 	if len(missing) == 0 {
-		// all dealt revisions deposited: the read revision must reach dealt (bounded progress; watchdog => inconclusive)
-		if !cr.n.WaitCommitted(dealt, 60*time.Second) {
+		// all dealt revisions deposited: the read revision must reach dealt. Decided in the sequencer's own steps: 5000
+		// passes in which it found the next slot empty although that slot's deposit was made before => the deposit was
+		// lost; only a sequencer that does not run at all ends in the watchdog (inconclusive)
+		reached, skipped := cr.n.CommittedOrSkipped(dealt, 5000, 60*time.Second)
+		if skipped {
+			c.Violatef("C04 deposited-revision-never-consumed", cr.witness(""), "every revision up to %d was reported to the sequencer (deposit observed at the notify hook), yet the sequencer polled the slot of revision %d five thousand times and found it empty: the read revision stays at %d for good, no later write becomes readable or watchable", dealt, cr.n.Committed()+1, cr.n.Committed())
+			return // nothing after this point can be read any more
+		} else if !reached {
 			c.Inconclusive(fmt.Sprintf("watchdog: every dealt revision was deposited but the read revision stayed at %d < %d", cr.n.Committed(), dealt))
 		}
 	}
